@@ -309,12 +309,36 @@ def check_c02(fname: str, mask: int, args: tuple) -> bool:
     return reported == executed
 
 
+_POOLS: dict[int, object] = {}
+
+
+def _pool(inst: "Instrumented"):
+    from pynguin.ga.coveragegoals import BranchGoalPool
+
+    if inst.mask not in _POOLS:
+        _POOLS[inst.mask] = BranchGoalPool(inst.sp)
+    return _POOLS[inst.mask]
+
+
 def check_c03(fname: str, mask: int, args: tuple) -> bool:
     """A branch outcome is reported covered iff the interpreter took it; every conditional
-    jump has a registered predicate; code-object entry is reported iff entered."""
+    jump has a registered predicate with both outcomes as goals; code-object entry is
+    reported iff entered.  "Reported" is what the REAL goal objects say
+    (BranchGoalPool / BranchGoal.is_covered / BranchlessCodeObjectGoal.is_covered)."""
+    from pynguin.testcase.execution_result import ExecutionResult
+
     _k0, _v0, truth = run_original(fname, args)
     _k1, _v1, trace, inst = run_instrumented(mask, fname, args)
     sp = inst.sp
+    result = ExecutionResult()
+    result.execution_trace = trace
+    pool = _pool(inst)
+    goals = {}
+    for g in pool.branch_goals:
+        if (g.predicate_id, g.value) in goals:
+            return False
+        goals[g.predicate_id, g.value] = g
+    branchless = {g.code_object_id: g for g in pool.branchless_code_object_goals}
     for code in codes_of_function(fname):
         key = (code.co_name, code.co_firstlineno)
         cid = inst.by_key.get(key)
@@ -330,6 +354,12 @@ def check_c03(fname: str, mask: int, args: tuple) -> bool:
                 if meta.node.index in preds:
                     return False  # two predicates for one block
                 preds[meta.node.index] = pid
+        if not preds:
+            g = branchless.get(cid)
+            if g is None or g.is_covered(result) != entered:
+                return False  # a branch-less code object is a goal, covered iff entered
+        elif cid in branchless:
+            return False
         taken = set()
         for (n, f, src, dst) in truth.branches:
             if (n, f) != key:
@@ -345,8 +375,10 @@ def check_c03(fname: str, mask: int, args: tuple) -> bool:
             if pid is None:
                 return False  # a conditional jump without a registered predicate
             for v in (True, False):
-                dist = (trace.true_distances if v else trace.false_distances).get(pid)
-                reported = dist == 0.0
+                goal = goals.get((pid, v))
+                if goal is None:
+                    return False  # outcome without a goal
+                reported = goal.is_covered(result)
                 dests = cm.for_exit_alternatives(succ[v]) if _last.name == "FOR_ITER" else {cm.resolve(succ[v])}
                 really = any((bidx, d) in taken for d in dests)
                 if reported != really:
